@@ -23,6 +23,7 @@ RULE += ' Round 7: 16-bit code-segment twins: the register-only rows decoded for
 RULE += ' Round 8: the segment pushes and repeated-prefix rows of C04; the 16-bit code-segment twins include memory-operand rows and compare the reported memory cells (addresses evaluated on a state whose upper register halves are set).'
 RULE += ' Round 9: far returns, the selector perturbed to the 64-bit user code selector (the step succeeds and cs, reported by the tracer, differs).'
 RULE += ' Round 10: the reported sets are asked the way an analysis does: get_r() without memory first, then get_r(mem_read=True) on the same lifted objects.'
+RULE += ' Round 10: the integer-core rows are also probed while executing in a 16-bit code segment (the bytes that mean the row there, decoded with attrib opmode/admode u16; keys cs16/...).'
 ASSUMPTIONS = ['the host CPU under ptrace single-step is the reference; faulting steps are excluded', 'only architecturally defined outputs witness a read dependency (undefined flags are ignored as outputs); '
                'every flag the CPU changes counts as written', 'x87 registers hold finite normal values with all exceptions masked (the default control word); TOP is 0 initially; a register tagged empty after the step is not an output']
 
@@ -242,10 +243,17 @@ def outputs(cpu, undef, with_fp, x87=None):
     return o
 
 
-def run_instances(sh, insts, nstates, seed):
+def run_instances(sh, insts, nstates, seed, cs16=False):
+    """cs16: insts is a list of (row, bytes that mean the row in a 16-bit code segment); the step runs in the tracee's 16-bit code
+    segment and the bytes are decoded with attrib opmode/admode u16 (keys cs16/...)."""
     from miasmx.arch.ia32_arch import x86mnemo
+    from miasmx.arch.ia32_reg import x86_afs
     from miasmx.core.bin_stream import bin_stream
-    asm = c04.assemble(insts)
+    if cs16:
+        asm = [(b16, '') for inst, b16 in insts]
+        insts = [inst for inst, b16 in insts]
+    else:
+        asm = c04.assemble(insts)
     plan = []          # (inst, code, ins, base state, list of (location, perturbed state))
     cases = []
     for inst, (g, msg) in zip(insts, asm):
@@ -253,7 +261,7 @@ def run_instances(sh, insts, nstates, seed):
             sh.counters['gas_rejects_form'] += 1
             continue
         try:
-            ins = x86mnemo.dis(bin_stream(Virt(O.CODE_ADDR, g), O.CODE_ADDR))
+            ins = x86mnemo.dis(bin_stream(Virt(O.CODE_ADDR, g), O.CODE_ADDR), {'opmode': x86_afs.u16, 'admode': x86_afs.u16}) if cs16 else x86mnemo.dis(bin_stream(Virt(O.CODE_ADDR, g), O.CODE_ADDR))
         except Exception:
             ins = None
         if ins is None or ins.l != len(g):
@@ -322,7 +330,7 @@ def run_instances(sh, insts, nstates, seed):
                     perts.append(('fp:' + name, dict(regs=regs, flags=flags, hot=hot, fp=(bytes(mmb), bytes(xmb)))))
             plan.append((inst, g, ins, base, perts, len(cases)))
             for st in [base] + [p[1] for p in perts]:
-                cases.append(dict(code=g, regs=[st['regs'][r] for r in O.REGS], eflags=O.pack_eflags(st['flags']), hot=st['hot'], fp=st['fp'], low=base['low'], x87=st.get('x87')))
+                cases.append(dict(code=g, regs=[st['regs'][r] for r in O.REGS], eflags=O.pack_eflags(st['flags']), hot=st['hot'], fp=st['fp'], low=base['low'], x87=st.get('x87'), cs16=cs16))
     if not cases:
         return
     res = []
@@ -330,7 +338,7 @@ def run_instances(sh, insts, nstates, seed):
         res += O.run_cases(cases[i:i + 20000])
     for inst, g, ins, base, perts, pos in plan:
         cpu0 = res[pos]
-        canon = (inst['text'], tuple(sorted(base['regs'].items())), tuple(sorted(base['flags'].items())), base['hot'], base['fp'])
+        canon = (inst['text'], tuple(sorted(base['regs'].items())), tuple(sorted(base['flags'].items())), base['hot'], base['fp']) + (('cs16',) if cs16 else ())
         if cpu0['status'] != 0:
             sh.case(canon, False)
             sh.counters['cpu_fault:%d' % cpu0['status']] += 1
@@ -349,6 +357,8 @@ def run_instances(sh, insts, nstates, seed):
         x87i = inst['extra'] if inst['extra'].get('x87') else None
         o0 = outputs(cpu0, undef, sse, x87i)
         fam = ('x87:' + inst['mn']) if x87i else ('MMX-SSE:' + re.sub(r'(ps|pd|ss|sd)$', '#', inst['mn'])) if sse else re.sub(r'^(set|cmov|j)(' + '|'.join(c04.CC) + ')$', r'\1cc', inst['mn'])
+        if cs16:
+            fam = 'cs16/' + fam
         form = inst['form']
         if inst['mn'] in ('bt', 'bts', 'btr', 'btc'):
             form = '%s/%d' % (form, inst['size'])       # the 16-bit bit-string forms are known to be wrong; keep the 32-bit ones visible
@@ -360,7 +370,7 @@ def run_instances(sh, insts, nstates, seed):
                     v -= 1 << inst['size']
                 form += '/bit-offset:%s' % ('negative' if v < 0 else ('inside-operand' if v < inst['size'] else 'beyond-operand'))
         witnessed = 0
-        wit = {'text': inst['text'], 'code': g.hex(), 'regs': base['regs'], 'flags': base['flags'], 'hot': base['hot'].hex(), 'fp': [base['fp'][0].hex(), base['fp'][1].hex()] if base['fp'] else None,
+        wit = {'cs16': cs16, 'text': inst['text'], 'code': g.hex(), 'regs': base['regs'], 'flags': base['flags'], 'hot': base['hot'].hex(), 'fp': [base['fp'][0].hex(), base['fp'][1].hex()] if base['fp'] else None,
                'x87': [base['x87'][0].hex(), base['x87'][1]] if base['x87'] else None}
         # --- read dependencies
         seen_keys = set()
@@ -496,7 +506,7 @@ NPARTS = 96
 
 
 def shards(tier, seed):
-    return [('int', p) for p in range(NPARTS)] + [('sse', p) for p in range(NPARTS)] + [('x87', p) for p in range(8)] + [('mode16', 0)]
+    return [('int', p) for p in range(NPARTS)] + [('sse', p) for p in range(NPARTS)] + [('x87', p) for p in range(8)] + [('mode16', 0)] + [('cs16', p) for p in range(16)]
 
 
 def run_mode16(sh):
@@ -538,6 +548,10 @@ def run_mode16(sh):
 
 def run_shard(shard, tier, seed):
     sh = common.Shard()
+    if shard[0] == 'cs16':
+        tw = [(inst, b16) for j, (inst, b32, b16) in enumerate(c04.mode_twins(flow=True)) if j % 16 == shard[1] and len(b16) <= 15 and not inst['extra'].get('farret')]
+        run_instances(sh, tw, 2 if tier == 'quick' else 8, seed, cs16=True)
+        return sh
     if shard[0] == 'mode16':
         run_mode16(sh)
         return sh
@@ -569,6 +583,10 @@ def replay(w):
     if w.get('mode16'):
         run_mode16(sh)
         return [(v['key'], v['detail']) for v in sh.violations if v['witness'].get('text') == w['text']]
+    if w.get('cs16'):
+        tw = [(inst, b16) for inst, b32, b16 in c04.mode_twins(flow=True) if inst['text'] == w['text']]
+        run_instances(sh, tw[:1], 8, 0, cs16=True)
+        return [(v['key'], v['detail']) for v in sh.violations]
     table = c04.instances() + sse_instances() + x87_instances()
     inst = [i for i in table if i['text'] == w['text']]
     if not inst:
